@@ -1011,9 +1011,12 @@ def parameter_case(perm):
 RESOLUTION_COMPS = ["tempo-dt1", "tempo-dt2", "free-dt1", "free-dt2", "td-dt2", "mf-dt2", "mf-dt1"]
 
 
-def resolution_case(perm):
+def resolution_case(args):
     """one System / TimeDependentSystem / MeanFieldSystem / Bath shared by computations at DIFFERENT time steps
-    (a convergence check), in every order; each result is compared with freshly constructed objects."""
+    (a convergence check), in every order; each result is compared with freshly constructed objects.
+    construct_first: all Tempo / MeanFieldTempo objects of the order are constructed before any of them is propagated."""
+    perm, construct_first = args if isinstance(args[0], (tuple, list)) else (args, False)
+
     def objs():
         s_ = oq.TimeDependentSystemWithField(lambda t, a: 0.5 * M.SZ + np.real(a) * M.SX)
         return {"bath": oq.Bath(0.5 * M.SX, M.ohmic(alpha=0.25, temperature=0.4)),
@@ -1022,33 +1025,42 @@ def resolution_case(perm):
                 "mf": oq.MeanFieldSystem([s_], lambda t, st, a: -0.1 * a - 0.1j * np.trace(M.SM @ st[0]))}
     dts = {"dt1": DT, "dt2": 0.5 * DT}
 
-    def comp(name, o):
+    def build(name, o):
+        kind, dtn = name.rsplit("-", 1)
+        prm = oq.TempoParameters(dt=dts[dtn], epsrel=1e-9, dkmax=2)
+        if kind == "tempo":
+            return oq.Tempo(o["sys"], o["bath"], prm, M.RHO_GEN2, 0.0)
+        if kind == "mf":
+            return oq.MeanFieldTempo(o["mf"], [o["bath"]], prm, [M.RHO_GEN2], 0.5, 0.0)
+        return None
+
+    def comp(name, o, obj=None):
         kind, dtn = name.rsplit("-", 1)
         dt = dts[dtn]
         n = 2 if dtn == "dt1" else 4
-        prm = oq.TempoParameters(dt=dt, epsrel=1e-9, dkmax=2)
         if kind == "tempo":
-            return np.array(oq.Tempo(o["sys"], o["bath"], prm, M.RHO_GEN2, 0.0).compute((n + 0.4) * dt, progress_type="silent").states)[-1].ravel()
+            return np.array((obj or build(name, o)).compute((n + 0.4) * dt, progress_type="silent").states)[-1].ravel()
         if kind == "free":
             return np.array(oq.compute_dynamics(o["sys"], M.RHO_GEN2, dt=dt, num_steps=n, progress_type="silent").states)[-1].ravel()
         if kind == "td":
             return np.array(oq.compute_dynamics(o["tds"], M.RHO_GEN2, dt=dt, num_steps=n, start_time=0.3, progress_type="silent").states)[-1].ravel()
-        t = oq.MeanFieldTempo(o["mf"], [o["bath"]], prm, [M.RHO_GEN2], 0.5, 0.0)
-        return np.array(t.compute((n + 0.4) * dt, progress_type="silent").system_dynamics[0].states)[-1].ravel()
+        return np.array((obj or build(name, o)).compute((n + 0.4) * dt, progress_type="silent").system_dynamics[0].states)[-1].ravel()
     shared = objs()
+    built = {i: build(name, shared) for i, name in enumerate(perm)} if construct_first else {}
     vio = []
+    tag = "constructed-first|" if construct_first else ""
     for i, name in enumerate(perm):
         try:
-            got = comp(name, shared)
+            got = comp(name, shared, built.get(i))
             exp = comp(name, objs())
         except Exception as ex:  # noqa
-            vio.append((f"resolution|{name}|exception:{type(ex).__name__}", f"order {perm}: {ex}"[:160]))
+            vio.append((f"resolution|{tag}{name}|exception:{type(ex).__name__}", f"order {perm}: {ex}"[:160]))
             break
         if got.shape != exp.shape or np.abs(got - exp).max() > 1e-6:
             before = "+".join(sorted(set(x.rsplit("-", 1)[1] for x in perm[:i]))) or "nothing"
-            vio.append((f"resolution|{name.rsplit('-', 1)[0]}-after-runs-at-{before}|differs-from-fresh-objects",
-                        f"order {perm}: {name} on shared system/bath objects differs from fresh objects by "
-                        f"{np.abs(got - exp).max() if got.shape == exp.shape else 'shape'}"))
+            vio.append((f"resolution|{tag}{name.rsplit('-', 1)[0]}-after-runs-at-{before}|differs-from-fresh-objects",
+                        f"order {perm} (construct_first={construct_first}): {name} on shared system/bath objects differs from "
+                        f"fresh objects by {np.abs(got - exp).max() if got.shape == exp.shape else 'shape'}"))
     return {"vio": vio, "n": len(perm)}
 
 
@@ -1154,12 +1166,13 @@ def run(tier, seed):
         trans += r["n"]
         for cls, what in r["vio"]:
             rep.add(Violation(cls, what, {"part": "parameters", "perm": [p_[0], list(p_[1])]}))
-    rperms = list(itertools.permutations(RESOLUTION_COMPS, 3 if tier == "quick" else 4))
+    rperms = [(p_, False) for p_ in itertools.permutations(RESOLUTION_COMPS, 3 if tier == "quick" else 4)]
+    rperms += [(p_, True) for p_ in itertools.permutations(["tempo-dt1", "tempo-dt2", "mf-dt1", "mf-dt2", "free-dt1"], 2 if tier == "quick" else 3)]
     qres = pmap(resolution_case, rperms, seed=seed)
-    for p_, r in zip(rperms, qres):
+    for (p_, cf), r in zip(rperms, qres):
         trans += r["n"]
         for cls, what in r["vio"]:
-            rep.add(Violation(cls, what, {"part": "resolution", "perm": list(p_)}))
+            rep.add(Violation(cls, what, {"part": "resolution", "perm": list(p_), "construct_first": cf}))
     rep.coverage = {
         "states": len(states) + nl,
         "transitions": trans + nl,
@@ -1209,7 +1222,7 @@ def replay(rp):
         r = pure_function_case(rp["name"])
         return {"obs": r["vio"], "violation": r["vio"][0][0] if r["vio"] else None}
     if rp["part"] == "resolution":
-        r = resolution_case(tuple(rp["perm"]))
+        r = resolution_case((tuple(rp["perm"]), bool(rp.get("construct_first"))))
         return {"obs": r["vio"], "violation": r["vio"][0][0] if r["vio"] else None}
     if rp["part"] == "bathdyn":
         bd_env()
